@@ -18,6 +18,7 @@ import NeoModel.Proofs.QueueFair
 import NeoModel.Proofs.QueueNoExt
 import NeoModel.Proofs.QueueDrift
 import NeoModel.Proofs.QueueWake
+import NeoModel.Proofs.QueueNotify
 import NeoModel.Proofs.ChainAdd
 import NeoModel.Model.StateSync
 import NeoModel.Proofs.StateSyncRestore
@@ -225,18 +226,50 @@ theorem runN_blocked (n : Nat) (s : State) (h1 : s.pc = .wait) (h2 : s.signal = 
     have : runStep s = s := by simp [runStep, h1, wake, h2, h3]
     simp only [runN, this, ih]
 
-/-- FINDING (stuck-ext). Blocks 12, 13 are queued, `Run` sleeps because 11 is missing; another writer of
-the chain adds 11. Nobody signals `Run`: 12 and 13 are contiguous with the chain and valid, yet no number
-of `Run` steps applies them (until some later in-window `Put`). Negation of "reaches the highest
-contiguous block it was given" for interleavings with an external writer. -/
-theorem queue_stuck_after_external_add_witness :
+-- Regression for stuck-ext (fixed by aea938c). Under the OLD rule (nobody told the queue about blocks other writers
+-- add) this state was final: 12, 13 queued, `Run` asleep because 11 was missing, another writer adds 11, and no
+-- number of `Run` steps applies 12 and 13. That still is what the queue does UNTIL the server's notification of
+-- block 11 arrives (`Queue.Notify`, called by relayBlocksLoop for every block the ledger reports); with it `Run`
+-- wakes up and applies both.
+example :
     let s := exec (init 4 10) [.run, .put (el 12 0) 10, .put (el 13 1) 10, .run, .run, .run, .adv]
     s.height = 11 ∧ s.ring (posOf 4 12) = some (el 12 0) ∧ s.ring (posOf 4 13) = some (el 13 1) ∧
-    ∀ n, (runN n s).height = 11 := by
-  refine ⟨by decide, by decide, by decide, ?_⟩
+    (∀ n, (runN n s).height = 11) ∧ (runN 12 (apply s .notify)).height = 13 := by
+  refine ⟨by decide, by decide, by decide, ?_, by decide⟩
   intro n
   rw [runN_blocked n _ (by decide) (by decide) (by decide)]
   decide
+
+/-- C20 (queue, never stuck — every schedule in which the server's notifications arrive). For every capacity,
+start height and EVERY interleaving without Discard — producers with any stale heights, duplicates, invalid
+elements, external additions to the chain at any moment (consensus, RPC, another queue), `Run` anywhere in its
+loop — in which the last external addition has been followed by a `Notify` (Server.relayBlocksLoop calls it for
+every block the ledger reports; it may come arbitrarily late): whenever every index in `(height, m]` has a valid
+element in its slot, `Run` alone brings the chain to `m`. It is never asleep without a pending signal while the
+next block is queued. (`queue_no_external_writer_never_stuck` is the special case without external additions;
+before aea938c there was no `Notify` and the state of the regression example above was final: finding stuck-ext.) -/
+theorem queue_never_stuck_when_notified (cap h0 : Nat) (hc : 0 < cap) (as : List Act)
+    (hnd : ∀ a ∈ as, a ≠ .disc) (hp : pendAfter false as = false) (m : Nat) :
+    let s := exec (init cap h0) as
+    Filled s m → ∃ n, m ≤ (runN n s).height := by
+  intro s hf
+  have hk := sleepy2_exec (init cap h0) false as (inv_init cap h0 hc) (sleepy2_init cap h0) hnd
+  rw [hp] at hk
+  exact reaches_of_sleepy2 s m (inv_exec _ as (inv_init cap h0 hc))
+    (offer_exec _ as (inv_init cap h0 hc) (offer_init cap h0)) hk hf
+
+-- non-vacuity: an external addition while `Run` sleeps, puts racing with it, the notification arriving late
+example :
+    let as : List Act := [.run, .put (el 12 0) 10, .put (el 13 1) 10, .run, .run, .run, .adv, .put (el 30 2) 11, .notify]
+    let s := exec (init 4 10) as
+    (∀ a ∈ as, a ≠ .disc) ∧ pendAfter false as = false ∧ Filled s 13 ∧ (runN 12 s).height = 13 := by
+  refine ⟨by decide, by decide, ?_, by decide⟩
+  intro i h1 h2
+  have h1' : 11 < i := h1
+  have : i = 12 ∨ i = 13 := by omega
+  rcases this with rfl | rfl
+  · exact ⟨el 12 0, by decide, rfl, rfl⟩
+  · exact ⟨el 13 1, by decide, rfl, rfl⟩
 
 -- Regression for additem-ahead-ext (fixed by the guard `b.GetIndex() > h+1 → continue`): `Run` reads height 5 outside
 -- the lock; another writer adds block 6; a producer puts block 10 = 6 + cap (inside the window, same slot as 6).
@@ -335,9 +368,9 @@ element may be stored, replace a stale one, or be thrown away as a duplicate of 
 the same (`put_signals`, `put_silent` in Proofs/QueueWake.lean). For EVERY interleaving without Discard — producers
 with stale heights, external chain additions at any moment, `Run` anywhere in its loop, also holding a stale
 height — : if after such a `Put` the indices `(height, m]` are queued with valid elements, `Run` alone brings the
-chain to `m`. So the known finding `stuck-ext` is exactly the remaining case: an external addition makes the
+chain to `m`. So the former finding `stuck-ext` was exactly the remaining case: an external addition makes the
 queued blocks contiguous with the chain while `Run` sleeps, and NO window-passing `Put` (not even a duplicate)
-follows. (Seeded change C20-m7 removes the signal from the duplicate case and thereby widens that case.) -/
+follows; since aea938c the server's `Notify` covers it (`queue_never_stuck_when_notified`). (Seeded change C20-m7 removes the signal from the duplicate case and thereby widens that case.) -/
 theorem queue_put_wakes_run (cap h0 : Nat) (hc : 0 < cap) (as : List Act) (hnd : ∀ a ∈ as, a ≠ .disc)
     (e : Elem) (hr m : Nat) :
     let s := exec (init cap h0) as
